@@ -314,11 +314,12 @@ impl RBig {
         let up = if self.denominator() <= limit {
             // If the denominator of the number is already small enough, increase the number a little
             // bit before finding the farey neighbors. Note that the distance between two adjacent
-            // numbers in a farey sequence is at least limit^-2, so we just increase limit^-2
+            // numbers in a farey sequence is at least limit^-2 (exactly that when limit = 1), so we
+            // increase by slightly less than limit^-2 to stay strictly between them
             let target = fract
                 + Self(Repr {
                     numerator: IBig::ONE,
-                    denominator: limit.sqr(),
+                    denominator: limit.sqr() + UBig::ONE,
                 });
             Self::farey_neighbors(&target, limit).1
         } else {
@@ -351,7 +352,7 @@ impl RBig {
             let target = fract
                 - Self(Repr {
                     numerator: IBig::ONE,
-                    denominator: limit.sqr(),
+                    denominator: limit.sqr() + UBig::ONE,
                 });
             Self::farey_neighbors(&target, limit).0
         } else {
